@@ -1428,15 +1428,22 @@ impl<R: std::io::Read> Decoder<R> {
                     .ok_or(Error::ShortBlock)
             })?,
             // if total number of remaining samples isn't known,
-            // treat an EOF error as the end of stream
-            // (this is an uncommon case)
-            None => match FrameHeader::read(crc16_reader.by_ref(), self.blocks.streaminfo()) {
-                Ok(header) => header,
-                Err(Error::Io(err)) if err.kind() == std::io::ErrorKind::UnexpectedEof => {
-                    return Ok(None);
+            // treat the data ending between frames as the end of stream
+            // (this is an uncommon case); data ending inside
+            // a frame header is a truncated stream
+            None => {
+                let mut first = [0; 1];
+                match crc16_reader.read_exact(&mut first) {
+                    Ok(()) => FrameHeader::read(
+                        &mut first.as_slice().chain(crc16_reader.by_ref()),
+                        self.blocks.streaminfo(),
+                    )?,
+                    Err(err) if err.kind() == std::io::ErrorKind::UnexpectedEof => {
+                        return Ok(None);
+                    }
+                    Err(err) => return Err(err.into()),
                 }
-                Err(err) => return Err(err),
-            },
+            }
         };
 
         read_subframes(
